@@ -677,3 +677,66 @@ Print Assumptions C16_reachable_states.
 (* the hypotheses above are satisfiable *)
 Example C16_ready_state0 : ready state0 = true.
 Proof. exact ready_state0. Qed.
+
+(* ------------------------------------------------------------------ round 7: sequence-level lifts, completeness directions *)
+
+(* the execution model is compositional, a repeated reset is a no-op, and the store before a sequence is irrelevant for every member
+   the sequence assigns -- any sequences, any stores *)
+Theorem C16_exec_sequences :
+  (forall fn p q s, exec_fn fn (p ++ q)%list s = exec_fn fn q (exec_fn fn p s)) /\
+  (forall fn p s c f, exec_fn fn (p ++ p)%list s c f = exec_fn fn p s c f) /\
+  (forall fn p s1 s2 c f e, last_val p fn c f None = Some e -> exec_fn fn p s1 c f = exec_fn fn p s2 c f).
+Proof. split; [exact exec_fn_app | split; [exact exec_fn_idempotent | exact exec_fn_history_irrelevant]]. Qed.
+Print Assumptions C16_exec_sequences.
+
+(* the value checker is COMPLETE as well as sound: the per-assignment verdict is characterised in both directions, a missing initial
+   value is exactly "no entry", and a tree whose assignments satisfy the specification (with live lists) is accepted *)
+Theorem C16_value_checker_complete :
+  (forall is v, val_ok is v = true <->
+     (~ In (v_func v) value_funcs \/ excepted v = true \/
+      exists i, lookup_init is (v_class v) (v_field v) = Some i /\ same_value i (v_val v) = true)) /\
+  (forall is c f, lookup_init is c f = None <-> forall e, ~ In (mk_init c f e) is) /\
+  (forall is vs,
+     (forall v, In v vs -> ~ In (v_func v) value_funcs \/ excepted v = true \/
+                exists i, lookup_init is (v_class v) (v_field v) = Some i /\ same_value i (v_val v) = true) ->
+     values_hygiene is vs = true -> check_values is vs = true).
+Proof. split; [exact val_ok_spec | split; [exact lookup_init_none | exact check_values_complete]]. Qed.
+Print Assumptions C16_value_checker_complete.
+
+(* non-vacuity: running on_detach's extracted assignments twice from a stale store gives what one run gives (and that is the
+   initial value); a member without an initialiser entry is reported as such *)
+Example C16_on_detach_twice :
+  let p := filter (fun v => String.eqb (v_func v) "BaseEmitter::on_detach") vals in
+  let stale : store := fun _ _ => Some (CName "stale") in
+  exec_fn "BaseEmitter::on_detach" (p ++ p)%list stale "BaseEmitter" "_forced_inst_options"
+    = exec_fn "BaseEmitter::on_detach" p stale "BaseEmitter" "_forced_inst_options" /\
+  exec_fn "BaseEmitter::on_detach" p stale "BaseEmitter" "_forced_inst_options" = Some (CName "kReserved") /\
+  exec_fn "BaseEmitter::on_detach" p stale "BaseEmitter" "_emitter_type" = Some (CName "stale").
+Proof. vm_compute. repeat split. Qed.
+Example C16_lookup_init_none_example : lookup_init inits "BaseEmitter" "_no_such_member" = None.
+Proof. vm_compute. reflexivity. Qed.
+
+(* sequence-level lift of C16_any_step_after_reset_from_start: not one step but a WHOLE continuation script behaves, after any
+   history that ends in a reset-like step (and neutral steps), like the same script after any other such history with the same
+   validation configuration (which persists by contract) -- and like the script on fresh objects when validation is as at the start *)
+Theorem C16_whole_script_after_reset :
+  (forall h1 r1 n1 h2 r2 n2 t,
+     reset_like r1 = true -> forallb neutral n1 = true -> reset_like r2 = true -> forallb neutral n2 = true ->
+     s_valid (run (h1 ++ r1 :: n1) state0) = s_valid (run (h2 ++ r2 :: n2) state0) ->
+     s_core (run (h1 ++ r1 :: n1 ++ t) state0) = s_core (run (h2 ++ r2 :: n2 ++ t) state0) /\
+     s_valid (run (h1 ++ r1 :: n1 ++ t) state0) = s_valid (run (h2 ++ r2 :: n2 ++ t) state0)) /\
+  (forall h r n t,
+     reset_like r = true -> forallb neutral n = true -> s_valid (run (h ++ r :: n) state0) = s_valid state0 ->
+     s_core (run (h ++ r :: n ++ t) state0) = s_core (run t state0) /\
+     s_valid (run (h ++ r :: n ++ t) state0) = s_valid (run t state0)).
+Proof. split; [exact whole_script_after_reset_two_histories | exact whole_script_after_reset]. Qed.
+Print Assumptions C16_whole_script_after_reset.
+
+(* non-vacuity: a used holder / emitter (two sections, five labels, a relocation, a logger), reset, heap perturbed, then a
+   continuation of three steps including another reset: same core as the continuation alone; the core is not the trivial one *)
+Example C16_whole_script_example :
+  let h := [SGen (mkEff 2 5 1 0 0 0 true false 100); SLogger true] in
+  let t := [SGen (mkEff 1 2 0 0 0 0 false false 7); SDetachAttach; SGen (mkEff 0 1 1 0 0 0 false false 3)] in
+  s_core (run (h ++ SReset Soft :: [SHeap 9; SEmLogger true] ++ t) state0) = s_core (run t state0) /\
+  s_core (run t state0) <> core0.
+Proof. split; [vm_compute; reflexivity | vm_compute; discriminate]. Qed.
